@@ -5,9 +5,27 @@ from tools.vlib import hx, ROOT
 
 ID = "C13"
 LEVEL = "proof"
-DRIVER = {"srcs": ["harness/c13_driver.cc"], "sdk": True}
+DRIVER = {"srcs": ["harness/c13_driver.cc", "harness/c13_purity.cc", "harness/purity/purity_probe.h", "tools/purity.py"], "sdk": True}
+
+
+def build_driver():
+    """the ASan/UBSan case driver + the ThreadSanitizer independence probe behind one dispatcher that behaves like a single
+    case driver: PURITY lines go to the probe (one process per case), everything else to the case driver"""
+    from tools import vlib, purity
+    main = vlib.build_driver("c13_driver", ["harness/c13_driver.cc"], sdk=True)
+    probe = vlib.build_driver("c13_purity", ["harness/c13_purity.cc"], sdk=True, variant="tsan")
+    return purity.make_dispatcher("c13_dispatch", main, probe)
+
+
 TRIVIAL_TAGS = {"ill", "odd"}
 ASSUMPTIONS = [
+    "threads: the model runs the operations of the three threads one at a time (thread-local context stacks, everything else shared); that "
+    "the log pipeline keeps no hidden state shared between loggers / records / threads is NOT a theorem - it is probed at run time on every "
+    "check by harness/c13_purity.cc (SDK sources under ThreadSanitizer; 3-4 real threads released by a barrier, each inside its own nested "
+    "scopes, emit every argument shape through their own logger and through one shared logger of a fresh LoggerProvider per round; "
+    "processors {simple}, {simple, simple}, {simple, batch + ForceFlush} with copying exporters; per processor the multiset of records seen "
+    "must be the single-threaded reference: each record once, fields as supplied, the emitting thread's identity; clauses purity:data_race "
+    "for a ThreadSanitizer report with a library frame, purity:result_differs)",
     "which span is ACTIVE on a thread is decided by the runtime context (C10); C13's model reuses C10's model of Context/Stack/Attach/Detach and the "
     "SPEC takes the active identity as the public context API reports it just before the call (printed by the driver), so C13 decides "
     "'the record carries the identity of the span that is active', C10 decides which one that is",
@@ -459,9 +477,15 @@ def mutation(g, r, referenced):
     return "MU %d %s" % (a, g.buf_toks(g.heap[a]))
 
 
+def purity_cases(tier):
+    # PURITY <0 simple / 1 two simple / 2 simple + batch> <threads> <rounds (fresh provider each)> <iterations of every shape>
+    k = 1 if tier == "quick" else 6
+    return ["PURITY 0 4 %d 3" % (40 * k), "PURITY 1 3 %d 3" % (40 * k), "PURITY 2 4 %d 3" % (40 * k), "PURITY 2 3 %d 6" % (20 * k)]
+
+
 def gen(rng, tier):
     n = 1 if tier == "quick" else 12
-    cases = []
+    cases = purity_cases(tier)
     for _ in range(1100 * n):
         cases.append(gen_case(rng, "mixed"))
     for _ in range(500 * n):
@@ -508,5 +532,5 @@ LEVEL_TEXT = ("Theorems in coq/Properties_C13.v about the Gallina model of the S
               "nothing over every operation sequence, each processor exactly once, independence of later caller writes proved for scalar values and "
               "refuted with a witness for strings/arrays (F15), model_meets_spec.  The model is tied to the C++ on every run: extracted model vs "
               "ASan/UBSan driver on the same generated programs, and the extracted SPEC checker on the implementation's observations.")
-LEVEL_NOTE = ("Trusted: Coq kernel, extraction, ocaml/driver.ml, harness/c13_driver.cc (exporters, probe recordable, thread hand-over), the generator, tools/extract_consts.py; the model is hand-written (tied by correspondence); the variadic pack "
+LEVEL_NOTE = ("The PURITY cases are a run-time ThreadSanitizer probe of the no-hidden-shared-state assumption, not a theorem. Trusted: Coq kernel, extraction, ocaml/driver.ml, harness/c13_driver.cc (exporters, probe recordable, thread hand-over), the generator, tools/extract_consts.py; the model is hand-written (tied by correspondence); the variadic pack "
               "expansion is exercised for the 351 argument-type sequences of harness/c13_sigs.inc only (the model theorem is for every list).")
